@@ -12,7 +12,7 @@
    dialects), then parsed with SQL precedence (OR < AND < NOT < IN, =) and evaluated in 3-valued logic. *)
 From Coq Require Import List ZArith NArith Bool.
 Import ListNotations.
-From SAV.sql Require Import Val3 InList InListSpecProofs InListMainProofs InListCacheProofs InListExtraProofs.
+From SAV.sql Require Import Val3 InList InListSpecProofs InListLeepProofs InListMainProofs InListCacheProofs InListExtraProofs.
 
 (* SQL's IN is the Kleene OR of the equalities - any list: empty, NULLs, duplicates; rows of any arity *)
 Theorem c07_in_is_or_of_eq : forall x rows, in_sem x rows = or_eq x rows.
@@ -35,6 +35,20 @@ Theorem c07_bound_correct : forall d p e vals row pop,
     exec_sem row x = EOk (ctx_value p row (expected e.(ie_op) (lhs_vals row e.(ie_left)) (map value_row vals))).
 Proof. exact bound_correct. Qed.
 Print Assumptions c07_bound_correct.
+
+(* the rendered bound parameters are exactly the list - as many placeholders as values, the same values in
+   the same order - for EVERY length (no padding, truncation or de-duplication), scalars and tuples *)
+Theorem c07_bound_values_exact : forall d b vals,
+  vals <> [] ->
+  (all_scalar vals = true -> tuple_branch b vals = false ->
+   exists tu repl, leep d b vals = Ok (tu, repl) /\
+     map snd tu = map (fun v => match v with VScalar s => s | VTuple _ => SNull end) vals /\
+     length tu = length vals /\ repl = InListLeepProofs.bind_items d tu) /\
+  (forall k, all_tuple k vals = true -> tuple_branch b vals = true ->
+   exists tu repl, leep d b vals = Ok (tu, repl) /\
+     map snd tu = concat (map value_row vals) /\ length tu = (length vals * k)%nat).
+Proof. exact bound_values_exact. Qed.
+Print Assumptions c07_bound_values_exact.
 
 (* empty list: FALSE for IN, TRUE for NOT IN, also for a NULL left operand, with every dialect's
    empty-set expression (sqlite / postgresql / mysql subqueries, default "NULL) AND (1 != 1" forms) *)
